@@ -74,7 +74,7 @@ def main():
     if want.get("signature") in sigs:
         same_digest = want.get("event_digest") in (None, res.get("digest"))
         print("REPRODUCED signature=%s digest_match=%s" % (want["signature"], same_digest))
-        sys.exit(1 if same_digest else 2)
+        sys.exit(1 if same_digest else 3)  # 3: same violation, but the event log differs from the recorded one
     if expect_clean and not sigs:
         print("CLEAN")
         sys.exit(0)
